@@ -48,6 +48,19 @@ def make_world(tag, seq, opt):
             if wa != wb:
                 return '%s through the shared Config wrote %r, through a fresh Config %r' % (kind, wa, wb)
         fs = parse_fs(raw)
+        # Configs built without JSON options use the package defaults (sorted keys, one-space indent,
+        # every array element on its own line) whatever other Configs were used before
+        import json as _json
+        for p, c in fs.items():
+            if b'/fresh/' in p or b'/shared/' in p:
+                for k in range(len(seq)):
+                    want = _json.dumps({'k': k, 'arr': [1, 2, 3], 'a': True}, indent=1, sort_keys=True).encode()
+                    flat = _json.dumps({'k': k, 'arr': [1, 2, 3], 'a': True}, sort_keys=True).encode()
+                    if (b'"k": %d' % k) in c and b'"arr"' in c and want not in c and p.endswith((b'.snap', b'.json', b'.txt', b'.yaml')):
+                        if b'k: %d' % k not in c or True:
+                            # locate the JSON entry text for this k
+                            if b'"arr": [1' in c or b'"arr": [ 1' in c:
+                                return 'a Config without JSON options stored a JSON document in a non-default layout (%r ...): options of another Config leaked into the defaults' % c[c.find(b'"arr"'):c.find(b'"arr"') + 30]
         sa = {p.split(b'/shared/')[-1]: c for p, c in fs.items() if b'/shared/' in p}
         sb = {p.split(b'/fresh/')[-1]: c for p, c in fs.items() if b'/fresh/' in p}
         if sa != sb:
